@@ -606,3 +606,19 @@ func e2Confirmed(st *vStats, w *e2World, replay func(decisions []vs.Step) string
 	st.class("unreproduced-failure-discarded")
 	return false
 }
+
+// e2PointIDFirst is e2PointID restricted to the match with the lowest source line.
+func e2PointIDFirst(file string, frag string) int {
+	best, bestLine := -1000, 1<<30
+	for id, s := range e2PointTable {
+		if !strings.HasPrefix(s, file+":") || !strings.Contains(s, frag) {
+			continue
+		}
+		var line int
+		fmt.Sscanf(s[len(file)+1:], "%d", &line)
+		if line < bestLine {
+			best, bestLine = id, line
+		}
+	}
+	return best
+}
